@@ -282,6 +282,9 @@ def repo_state():
     return {"head": head, "dirty": dirty}
 
 
+POISON_COUNT = [0]
+
+
 def poison(obj, _depth=0):
     """overwrite, in place, a mutable result a library call handed out - after the check has extracted what it
     needs.  A caller owns what it was given and may change it; if the library kept a reference (a cache entry, a
@@ -289,6 +292,12 @@ def poison(obj, _depth=0):
     answers reports it.  Returns nothing."""
     if _depth > 3 or obj is None:
         return
+    if _depth == 0:
+        # two results out of three are overwritten, the third is left as returned: a stale cache entry keyed on an object the
+        # library handed out would be hidden by overwriting that very object every time
+        POISON_COUNT[0] += 1
+        if POISON_COUNT[0] % 3 == 0:
+            return
     if isinstance(obj, np.ndarray):
         if obj.size and obj.flags.writeable and obj.dtype.kind in "fci":
             try:
